@@ -223,6 +223,14 @@ func c12Pairs(t *rapid.T, g *gen.G) (groups [][][]string, label string) {
 		typ := rapid.SampledFrom([]string{"int", "float", "bool", "string", "array", "string", "array"}).Draw(t, "typ")
 		l := g.ExprOf(typ, rapid.IntRange(0, 3).Draw(t, "dl"))
 		r := g.ExprOf(typ, rapid.IntRange(0, 3).Draw(t, "dr"))
+		if inner := map[string][]string{"int": {"+", "*", "-"}, "float": {"+", "*"}, "string": {"+"}, "array": {"+"}}[typ]; inner != nil && rapid.IntRange(0, 2).Draw(t, "near") == 0 {
+			// operands that are nearly the same tree: equal, mirrored, or differing in one leaf
+			// (what a common-subexpression shortcut has to tell apart)
+			a, b, c2 := g.ExprOf(typ, rapid.IntRange(0, 1).Draw(t, "da")), g.ExprOf(typ, rapid.IntRange(0, 1).Draw(t, "db")), g.ExprOf(typ, 0)
+			io := rapid.SampledFrom(inner).Draw(t, "innerop")
+			l = "(" + a + ") " + io + " (" + b + ")"
+			r = rapid.SampledFrom([]string{"(" + b + ") " + io + " (" + a + ")", "(" + a + ") " + io + " (" + b + ")", "(" + a + ") " + io + " (" + c2 + ")", "(" + c2 + ") " + io + " (" + a + ")"}).Draw(t, "mirror")
+		}
 		op := map[string][]string{"int": {"+", "*", "-", "&", "|", "==", "<", "/", "%"}, "float": {"+", "*", "-", "==", "<=", "/"}, "bool": {"&", "|", "==", "!="}, "string": {"+", "==", "+"}, "array": {"+", "==", "!=", "+"}}[typ]
 		o := rapid.SampledFrom(op).Draw(t, "op")
 		tail := rapid.SampledFrom([]string{"", "", " == zznever", " != zznever"}).Draw(t, "tail")
